@@ -63,12 +63,12 @@ pub fn run(ctx: &mut Ctx) {
     ctx.rule = "well-formed sentences with every field randomised (ten talker ids, near misses and random pairs; VDM / VDO / random; counts, numbers and ids 0..255 with leading zeros; empty, one-byte, multi-byte and >= 0x80 channel; payload of 1..120 arbitrary bytes except ',' and '*', or a reference-encoded message; fill 0..5; tag block; '!' or '$'; trailing CR LF or junk) fed to a fresh parser once with decode = false and once with decode = true; talker / report enums, counts, Option id, channel = first byte as char, fill and data must equal what the builder transmitted; decode = false gives message None and Ok even for an undecodable payload; decode = true gives the same fields and the message an unfragmented sentence decodes to, or an error. Completed groups (from C05's generator) are compared the same way. Non-trivial = an accepted line differs from the canonical AIVDM,1,1,,A header; distinct by the lines.".into();
     ctx.assumptions = vec!["fields contain no '*' (see DESIGN.md, C02 domain note)".into(), "sentence-level message_type is C19's and is not compared here".into()];
     ctx.replay_regressions(check);
-    let n = ctx.tier.pick(40_000, 2_000_000);
+    let n = ctx.tier.pick(240_000, 2_000_000);
     let strat = wellformed_spec().prop_map(|s| {
         let b = s.render();
         Input::History { lines: vec![Line::new(b.clone(), false), Line::new(b, true)] }
     });
     ctx.run_proptest("single-sentences", &STD, n, strat, check);
-    let n = ctx.tier.pick(4_000, 200_000);
+    let n = ctx.tier.pick(24_000, 200_000);
     ctx.run_proptest("completed-groups", &STD, n, inorder_group_history(), check);
 }
